@@ -54,6 +54,8 @@ public:
   /* it could relate an accessor */
   unsigned symbolId() const override { return _exp->symbolId(); }
 
+  bool isStorage() const override { return _exp->isStorage(); }
+
   std::string toString(Context& ctx) const override
   {
     return std::string(_exp->typeName(ctx))
